@@ -176,6 +176,10 @@ def run(ctx):
         tot += st["inputs"]
     suite_teardown(ctx, 150 if quick else 3000)
     tot += ctx.coverage["suites"]["teardown"]["inputs"]
+    # the finalising step after cancel() / a top-level final state: every <onexit> block of every remaining state runs once, a failing
+    # block does not take the later ones with it (cancelled_then_finalised; the family is shared with C07)
+    from checks import c07
+    tot += c07.suite_completion(ctx, 100 if quick else 3000)["inputs"]
     ctx.coverage["evaluations"] = tot
     ctx.coverage["distinct_nontrivial"] = sum(ctx.coverage["suites"][s]["with_cancel"] + ctx.coverage["suites"][s]["with_reset"] for s in ("api-ops-null", "api-ops-lua"))
     ctx.coverage["rule"] = ("random charts (3-8 states, top-level finals with p=0.5, exit handlers) x random sequences of 1-14 API operations "
